@@ -124,6 +124,31 @@ fn mod_exp_zero() {
     }
 }
 
+/// A program whose only Jubjub-typed value is a constant.
+fn jubjub_constant() {
+    for (op, ins, outs) in [(Operation::Publish, vec!["JubjubScalar:01"], 0usize), (Operation::IsEqual, vec!["JubjubScalar:01", "JubjubScalar:02"], 1)] {
+        let instr = Instruction { operation: op, inputs: ins.iter().map(|s| s.to_string()).collect(), outputs: names("z", outs) };
+        if let Ok(r) = ZkirRelation::from_instructions(std::slice::from_ref(&instr)) {
+            if let Some(p) = compile_panics(&r) {
+                report("jubjub_constant", format!("{:?} of the constant(s) {:?}", op, ins), &format!("ZkirRelation::public_inputs panics: {p}"), "Ok or Err");
+            }
+        }
+    }
+}
+
+/// Load of a zero-width big integer (BigUintGadget::assign_bounded admits nb_bits = 0 through max(nb_bits, 1)).
+fn biguint_zero_bits() {
+    use midnight_zkir::IrType;
+    for bits in [0u32, 1, 96, 97] {
+        let instr = Instruction { operation: Operation::Load(IrType::BigUint(bits)), inputs: vec![], outputs: vec!["x".into()] };
+        if let Ok(r) = ZkirRelation::from_instructions(std::slice::from_ref(&instr)) {
+            if let Some(p) = incircuit_panics(&r) {
+                report("biguint_zero_bits", format!("Load(BigUint({bits})) -> x (in-circuit pass, dummy synthesis)"), &format!("synthesis panics: {p}"), "Ok or Err");
+            }
+        }
+    }
+}
+
 /// IntoBytes(n): n is a parameter of the (untrusted) program.
 fn into_bytes_lengths() {
     use Operation::*;
@@ -217,6 +242,8 @@ fn main() {
             accepted_but_panics();
             into_bytes_lengths();
             mod_exp_zero();
+            jubjub_constant();
+            biguint_zero_bits();
             param_edges();
         }
         _ => {
